@@ -637,6 +637,20 @@ pub mod verif {
             }
         }
 
+        /// Add a public address the instance will advertise (`PublicAddresses::add_address`).
+        pub fn add_public_address(&self, address: Multiaddr) -> bool {
+            self.identify.service.public_addresses().add_address(address).unwrap_or(false)
+        }
+
+        /// Register `peer` as connected through `address` (what `on_connection_established`
+        /// records), so that an inbound substream reports it as the observed address.
+        pub fn set_endpoint(&mut self, peer: PeerId, address: Multiaddr) {
+            self.identify.peers.insert(
+                peer,
+                Endpoint::dialer(address, crate::types::ConnectionId::from(0usize)),
+            );
+        }
+
         /// `on_inbound_substream` followed by the completion of the send future it queued.
         pub async fn inbound(&mut self, peer: PeerId, substream: Substream) {
             self.identify.on_inbound_substream(peer, ProtocolName::from(PROTOCOL_NAME), substream);
